@@ -746,7 +746,15 @@ def _skip_event(*events, **kwargs):
     if changed is None:
         return False
     for e in events:
-        for p in changed:
+        if isinstance(changed, dict):
+            # Sub-paths to compare for each watched parameter; None marks a
+            # parameter that is depended on directly and always counts
+            subpaths = changed.get(e.name)
+            if subpaths is None:
+                return False
+        else:
+            subpaths = [(p, what) for p in changed]
+        for p, what in subpaths:
             if what == 'value':
                 old = Undefined if e.old is None else _getattrr(e.old, p, None)
                 new = Undefined if e.new is None else _getattrr(e.new, p, None)
@@ -2368,8 +2376,10 @@ class Parameters:
                 obj.param._update_deps(attribute)
 
         p = '.'.join(dynamic_dep.spec.split(':')[0].split('.')[depth+1:])
-        if p == 'param':
-            subparams = [sp for sp in list(subobjs[-1].param)]
+        if p == 'param' or p.endswith('.param'):
+            # Compare all the parameters of the final sub-object
+            prefix = p[:-len('param')]
+            subparams = [] if subobjs[-1] is None else [prefix + sp for sp in list(subobjs[-1].param)]
         else:
             subparams = [p]
 
@@ -2400,8 +2410,19 @@ class Parameters:
         if dynamic_dep is None:
             subparams, callback, what = None, None, param_dep.what
         else:
-            subparams, callback, what = self_._resolve_dynamic_deps(
-                obj, dynamic_dep, param_dep, attribute)
+            # Several dependencies may pass through the parameters watched
+            # here: each parameter is compared on the sub-paths of all of
+            # them, unless it is itself one of the dependencies
+            subparams, callback, what = {}, None, param_dep.what
+            for ddep, pdep in group:
+                dsubparams, dcallback, dwhat = self_._resolve_dynamic_deps(
+                    obj, ddep, pdep, attribute)
+                callback = callback or dcallback
+                if dsubparams is None:
+                    subparams[pdep.name] = None
+                elif subparams.get(pdep.name, []) is not None:
+                    subpaths = subparams.setdefault(pdep.name, [])
+                    subpaths += [(sp, dwhat) for sp in dsubparams if (sp, dwhat) not in subpaths]
 
         mcaller = _m_caller(obj, name, what, subparams, callback)
         return dep_obj.param._watch(
